@@ -266,7 +266,7 @@ def oracle_c05(rows):
                     reserved[(new[0]["parent"], new[0]["id"])] = {
                         "before": sv_map(prev), "ins": s["extra"].get("ctx_inputs") or [], "refreshed": False,
                         "keys_before": set(sv_map(prev))}
-            if k in ("refresh", "init_send", "update_state"):
+            if k in ("refresh", "init_send", "process_invoice", "update_state"):   # every operation that refreshes first
                 for v in reserved.values():
                     v["refreshed"] = True
             if prev is not None and k == "cancel":
